@@ -7,10 +7,16 @@ import (
 	"fmt"
 	"math/rand"
 	"os"
+	"strconv"
 	"strings"
 	"sync"
 	"testing"
+	"testing/synctest"
+	"time"
 )
+
+// esT is the running test (synctest.Test needs it for the `deadline@` iterations).
+var esT *testing.T
 
 func esRetained(s *MemoryEventStore) (nBytes, maxBytes, retained int) {
 	s.mu.Lock()
@@ -76,14 +82,23 @@ func esApply(s *MemoryEventStore, toks []string) (obs string) {
 		var d []byte
 		fmt.Sscanf(toks[7], "x%x", &d)
 		out := []string{"items"}
-		n, done := 0, false
+		n, done, locked := 0, false, false
 		inject := func() {
 			if !done {
 				done = true
+				// an iterator that delivers while holding the store's lock would deadlock the append
+				if !s.mu.TryLock() {
+					locked = true
+					return
+				}
+				s.mu.Unlock()
 				s.Append(ctx, toks[5], toks[6], d)
 			}
 		}
 		for it, err := range s.After(ctx, toks[1], toks[2], idx) {
+			if locked {
+				return "delivery-holds-lock"
+			}
 			if err != nil {
 				inject()
 				if errors.Is(err, ErrEventsPurged) {
@@ -100,8 +115,13 @@ func esApply(s *MemoryEventStore, toks []string) (obs string) {
 				inject()
 			}
 		}
+		if locked {
+			return "delivery-holds-lock"
+		}
 		inject()
 		return strings.Join(out, " ")
+	case "iter":
+		return esIter(s, toks)
 	case "setmax":
 		var n int
 		fmt.Sscanf(toks[1], "%d", &n)
@@ -121,15 +141,260 @@ func esApply(s *MemoryEventStore, toks []string) (obs string) {
 	return "bad-op"
 }
 
+// esIter runs one record of the ITERATION PROTOCOL of After:
+//
+//	iter <sess> <stream> <idx> <ctx> <stop> [<pt>:<op>:<args>...]...
+//
+// ctx  = live | cancel@<c> | deadline@<c>: the context handed to After is cancelled (its deadline passes, in a
+// synctest bubble on the virtual clock) before the call (c = 0) or in the loop body of the c-th yielded item
+// (c >= 1; c = the number of items: after the last; never, if fewer than c items arrive).
+// stop = drain | stop@<k>: the consumer breaks out of the loop in the body of the k-th item (k >= 1).
+// Script entries (sorted by <pt> >= 1) are API calls issued from INSIDE the iteration, in the body of the
+// <pt>-th item (after the loop, in order, if the iteration never gets that far, so that every entry runs exactly
+// once): append:<sess>:<stream>:<payload>, closed:<sess>, setmax:<n>, open:<sess>:<stream>,
+// after:<sess>:<stream>:<idx> (a second, complete iteration with a live context, interleaved with this one).
+// Before the first entry that runs inside the loop the store's lock is probed (TryLock): an iterator that
+// delivers while holding it would deadlock every call from the loop body.
+//
+// Observation: it <term> <items...> [/ <observation of a nested after>]...   with <term> one of
+// end (the iterator returned, no error yielded), broke (the consumer broke out), purged / unknown / ctx / error
+// (the error it yielded: ErrEventsPurged, unknown session or stream, the context's error, any other), goes-on
+// (it yielded again after an error), locked (the lock probe failed; the iteration is abandoned).
+func esIter(s *MemoryEventStore, toks []string) (obs string) {
+	if len(toks) < 6 {
+		return "bad-op"
+	}
+	mode, cpt := toks[4], -1
+	if i := strings.IndexByte(mode, '@'); i >= 0 {
+		cpt, _ = strconv.Atoi(mode[i+1:])
+		mode = mode[:i]
+	}
+	if mode == "deadline" {
+		if esT == nil {
+			mode = "cancel"
+		} else {
+			synctest.Test(esT, func(*testing.T) {
+				defer func() {
+					if r := recover(); r != nil {
+						obs = "panic"
+					}
+				}()
+				ctx, cancel := context.WithTimeout(context.Background(), time.Second)
+				defer cancel()
+				obs = esIterRun(s, toks, ctx, cpt, func() { time.Sleep(2 * time.Second); synctest.Wait() })
+			})
+			return obs
+		}
+	}
+	ctx, cancel := context.WithCancel(context.Background())
+	defer cancel()
+	return esIterRun(s, toks, ctx, cpt, cancel)
+}
+
+func esIterRun(s *MemoryEventStore, toks []string, ctx context.Context, cpt int, fire func()) string {
+	bg := context.Background()
+	var idx int
+	fmt.Sscanf(toks[3], "%d", &idx)
+	stop := -1
+	if strings.HasPrefix(toks[5], "stop@") {
+		stop, _ = strconv.Atoi(toks[5][5:])
+	}
+	type entry struct {
+		pt int
+		f  []string
+	}
+	var script []entry
+	for _, e := range toks[6:] {
+		f := strings.Split(e, ":")
+		pt, err := strconv.Atoi(f[0])
+		if err != nil || len(f) < 2 {
+			return "bad-op"
+		}
+		script = append(script, entry{pt, f[1:]})
+	}
+	var nested []string
+	probed, locked := false, false
+	// runUpTo issues the pending script entries whose point is <= n (all of them for n < 0).
+	runUpTo := func(n int, inside bool) {
+		for len(script) > 0 && (n < 0 || script[0].pt <= n) && !locked {
+			if inside && !probed {
+				probed = true
+				if !s.mu.TryLock() {
+					locked = true
+					return
+				}
+				s.mu.Unlock()
+			}
+			f := script[0].f
+			script = script[1:]
+			switch f[0] {
+			case "append":
+				var d []byte
+				fmt.Sscanf(f[3], "x%x", &d)
+				s.Append(bg, f[1], f[2], d)
+			case "closed":
+				s.SessionClosed(bg, f[1])
+			case "setmax":
+				n, _ := strconv.Atoi(f[1])
+				s.SetMaxBytes(n)
+			case "open":
+				s.Open(bg, f[1], f[2])
+			case "after":
+				nested = append(nested, esApply(s, []string{"after", f[1], f[2], f[3]}))
+			}
+		}
+	}
+	if cpt == 0 {
+		fire()
+	}
+	items := []string{}
+	term := "end"
+	n := 0
+	for d, err := range s.After(ctx, toks[1], toks[2], idx) {
+		if term != "end" {
+			term = "goes-on"
+			break
+		}
+		if err != nil {
+			switch {
+			case errors.Is(err, ErrEventsPurged):
+				term = "purged"
+			case errors.Is(err, context.Canceled) || errors.Is(err, context.DeadlineExceeded):
+				term = "ctx"
+			case len(items) == 0:
+				term = "unknown" // any other error before the first item: the stream is not known (as op `after`)
+			default:
+				term = "error"
+			}
+			continue // "once the iterator yields a non-nil error, it will stop": see whether it does
+		}
+		items = append(items, "x"+hx(d))
+		n++
+		runUpTo(n, true)
+		if locked {
+			term = "locked"
+			break
+		}
+		if n == cpt {
+			fire()
+		}
+		if n == stop {
+			term = "broke"
+			break
+		}
+	}
+	if locked {
+		return "it locked"
+	}
+	runUpTo(-1, false)
+	out := "it " + term
+	if len(items) > 0 {
+		out += " " + strings.Join(items, " ")
+	}
+	for _, nobs := range nested {
+		out += " / " + nobs
+	}
+	return out
+}
+
 type esGen struct {
-	rng   *rand.Rand
-	limit int
-	ctr   byte
-	count map[string]int // appended per key (to aim After indices at interesting places)
+	rng        *rand.Rand
+	limit      int
+	ctr        byte
+	count      map[string]int // appended per key (to aim After indices at interesting places)
+	noDeadline bool           // concurrent runs: no synctest bubbles
+	focus      bool           // iteration-protocol cases: few streams, small payloads, roomy limit, mostly `iter`
+}
+
+func (g *esGen) pick() (sess, stream string) {
+	if g.focus {
+		return []string{"s1", "s1", "s1", "s2"}[g.rng.Intn(4)], []string{"a", "a", "b"}[g.rng.Intn(3)]
+	}
+	return []string{"s1", "s2", "s3"}[g.rng.Intn(3)], []string{"a", "b", "c"}[g.rng.Intn(3)]
+}
+
+func (g *esGen) closed(sess string) {
+	for k := range g.count {
+		if strings.HasPrefix(k, sess+"/") {
+			delete(g.count, k)
+		}
+	}
+}
+
+// iter generates one record of the iteration protocol (see esIter).
+func (g *esGen) iter(sess, stream string) string {
+	n := g.count[sess+"/"+stream]
+	idx := g.rng.Intn(n+2) - 1
+	if g.focus && g.rng.Intn(3) > 0 {
+		idx = g.rng.Intn(min(n, 2)+1) - 1 // near the start: several items to deliver
+	}
+	avail := n - (idx + 1)
+	if avail < 0 {
+		avail = 0
+	}
+	ctx := "live"
+	if g.rng.Intn(2) == 0 {
+		ctx = "cancel"
+		if !g.noDeadline && g.rng.Intn(3) == 0 {
+			ctx = "deadline"
+		}
+		ctx += "@" + strconv.Itoa(g.rng.Intn(avail+2))
+	}
+	stop := "drain"
+	if g.rng.Intn(5) < 2 {
+		stop = "stop@" + strconv.Itoa(1+g.rng.Intn(avail+1))
+	}
+	op := fmt.Sprintf("iter %s %s %d %s %s", sess, stream, idx, ctx, stop)
+	pt := 1
+	for e := g.rng.Intn(4); e > 0; e-- {
+		pt += g.rng.Intn(avail + 1)
+		if pt > avail+1 {
+			pt = avail + 1
+		}
+		s2, t2 := g.pick()
+		if g.rng.Intn(2) == 0 {
+			s2 = sess
+		}
+		r := g.rng.Intn(10)
+		if g.focus && (r == 4 || r == 5) && g.rng.Intn(3) > 0 {
+			r = 0
+		}
+		switch {
+		case r < 4:
+			g.count[s2+"/"+t2]++
+			op += fmt.Sprintf(" %d:append:%s:%s:%s", pt, s2, t2, g.payload())
+		case r < 6:
+			g.closed(s2)
+			op += fmt.Sprintf(" %d:closed:%s", pt, s2)
+		case r < 7:
+			lim := []int{1, 2, 7, 64, 0}[g.rng.Intn(5)]
+			if lim != 0 {
+				g.limit = lim
+			}
+			op += fmt.Sprintf(" %d:setmax:%d", pt, lim)
+		case r < 8:
+			op += fmt.Sprintf(" %d:open:%s:%s", pt, s2, t2)
+		default:
+			if g.rng.Intn(2) == 0 {
+				s2, t2 = sess, stream // a second iteration of the SAME stream, interleaved with this one
+			}
+			op += fmt.Sprintf(" %d:after:%s:%s:%d", pt, s2, t2, g.rng.Intn(g.count[s2+"/"+t2]+2)-1)
+		}
+	}
+	return op
 }
 
 func (g *esGen) payload() string {
 	var n int
+	if g.focus && g.rng.Intn(8) != 0 {
+		n = g.rng.Intn(4)
+		b := make([]byte, n)
+		for i := range b {
+			g.ctr++
+			b[i] = g.ctr
+		}
+		return "x" + hx(b)
+	}
 	switch g.rng.Intn(8) {
 	case 0:
 		n = 0
@@ -159,16 +424,39 @@ func (g *esGen) payload() string {
 }
 
 func (g *esGen) next() string {
-	sess := []string{"s1", "s2", "s3"}[g.rng.Intn(3)]
-	stream := []string{"a", "b", "c"}[g.rng.Intn(3)]
+	sess, stream := g.pick()
 	key := sess + "/" + stream
+	if g.focus {
+		switch r := g.rng.Intn(100); {
+		case r < 30:
+			g.count[key]++
+			return "append " + sess + " " + stream + " " + g.payload()
+		case r < 78:
+			return g.iter(sess, stream)
+		case r < 86:
+			return fmt.Sprintf("after %s %s %d", sess, stream, g.rng.Intn(g.count[key]+3)-1)
+		case r < 90:
+			lim := []int{64, 0, 7, 64}[g.rng.Intn(4)]
+			if lim != 0 {
+				g.limit = lim
+			}
+			return fmt.Sprintf("setmax %d", lim)
+		case r < 94:
+			g.closed(sess)
+			return "closed " + sess
+		default:
+			return "stat"
+		}
+	}
 	switch r := g.rng.Intn(100); {
 	case r < 8:
 		return "open " + sess + " " + stream
-	case r < 50:
+	case r < 46:
 		g.count[key]++
 		return "append " + sess + " " + stream + " " + g.payload()
 	case r < 56:
+		return g.iter(sess, stream)
+	case r < 60:
 		n := g.count[key]
 		idx := g.rng.Intn(n+2) - 1
 		s2 := []string{"s1", "s2", "s3"}[g.rng.Intn(3)]
@@ -189,11 +477,7 @@ func (g *esGen) next() string {
 		}
 		return fmt.Sprintf("setmax %d", lim)
 	case r < 91:
-		for k := range g.count {
-			if strings.HasPrefix(k, sess+"/") {
-				delete(g.count, k)
-			}
-		}
+		g.closed(sess)
 		return "closed " + sess
 	case r < 94:
 		return "maxbytes"
@@ -203,6 +487,7 @@ func (g *esGen) next() string {
 }
 
 func TestVerifEventStore(t *testing.T) {
+	esT = t
 	out := verifOpen(t)
 	defer out.close()
 	// corpus first
@@ -217,24 +502,41 @@ func TestVerifEventStore(t *testing.T) {
 	for c := 0; c < n; c++ {
 		rng := verifRng(int64(c))
 		g := &esGen{rng: rng, limit: []int{1, 2, 7, 64}[rng.Intn(4)], count: map[string]int{}}
+		if c%3 == 2 {
+			// the iteration protocol: a roomy limit, a few streams filled with small payloads, mostly `iter`
+			g.focus, g.limit = true, []int{64, 64, 7, 10 << 20}[rng.Intn(4)]
+		}
 		s := NewMemoryEventStore(nil)
 		cs := fmt.Sprintf("g%d", c)
 		out.line(cs, "reset", "ok")
 		first := fmt.Sprintf("setmax %d", g.limit)
 		out.line(cs, first, esApply(s, strings.Fields(first)), "setmax")
 		nops := 20 + rng.Intn(60)
+		if g.focus {
+			nops = 12 + rng.Intn(24)
+			for i := 2 + rng.Intn(7); i > 0; i-- {
+				sess, stream := g.pick()
+				g.count[sess+"/"+stream]++
+				op := "append " + sess + " " + stream + " " + g.payload()
+				out.line(cs, op, esApply(s, strings.Fields(op)), "append")
+			}
+		}
 		for i := 0; i < nops; i++ {
 			op := g.next()
 			toks := strings.Fields(op)
 			obs := esApply(s, toks)
 			tag := toks[0]
+			tags := []string{tag}
 			if toks[0] == "after" {
-				tag = "after-" + strings.Fields(obs)[0]
+				tags[0] = "after-" + strings.Fields(obs)[0]
 				if obs == "items" {
-					tag = "after-empty"
+					tags[0] = "after-empty"
 				}
 			}
-			out.line(cs, op, obs, tag)
+			if toks[0] == "iter" {
+				tags = esIterTags(toks, obs)
+			}
+			out.line(cs, op, obs, tags...)
 		}
 		out.line(cs, "stat", esApply(s, []string{"stat"}), "stat")
 	}
@@ -243,21 +545,128 @@ func TestVerifEventStore(t *testing.T) {
 	}
 }
 
-// esConcurrent: 8 goroutines hammer one store (run under -race in the thorough tier); afterwards the
-// store must still satisfy the sequential contract for a final sequence of reads: every stream's
-// After(-1) is either purged or a suffix-consistent list, and the accounting matches the data.
+// esIterTags: what an `iter` record exercised (evidence histograms).
+func esIterTags(toks []string, obs string) []string {
+	f := strings.Fields(obs)
+	term := "?"
+	if len(f) > 1 {
+		term = f[1]
+	}
+	nitems := 0
+	for _, x := range f[min(2, len(f)):] {
+		if x == "/" {
+			break
+		}
+		nitems++
+	}
+	tags := []string{"iter-" + term}
+	mode, cpt := toks[4], -1
+	if i := strings.IndexByte(mode, '@'); i >= 0 {
+		cpt, _ = strconv.Atoi(mode[i+1:])
+		mode = mode[:i]
+	}
+	switch {
+	case mode == "live":
+	case cpt == 0:
+		tags = append(tags, "iter-"+mode+"-before-call")
+	case cpt < nitems:
+		tags = append(tags, "iter-"+mode+"-midway")
+	case cpt == nitems:
+		tags = append(tags, "iter-"+mode+"-after-last")
+	default:
+		tags = append(tags, "iter-"+mode+"-never")
+	}
+	for _, e := range toks[6:] {
+		if p := strings.Split(e, ":"); len(p) > 1 {
+			pt, _ := strconv.Atoi(p[0])
+			where := "inside"
+			if pt > nitems {
+				where = "after-loop"
+			}
+			tags = append(tags, "iter-"+p[1]+"-"+where)
+		}
+	}
+	return tags
+}
+
+// esConcurrent: 8 goroutines hammer one store (run under -race in the thorough tier) with random operations
+// (including `iter` records: calls from inside iterations, cancelled contexts); every goroutine also owns a
+// PRIVATE session nobody else touches: whatever the others do (their appends purge its items too), every After
+// on it must be the purge error (only if something lies after the index) or exactly what the goroutine itself
+// appended after the index as of the start of the iteration (concurrent_after_exact,
+// iterator_snapshot_independent_of_later_ops), also when the goroutine appends from inside the iteration.
+// Afterwards the accounting must match the data.
 func esConcurrent(t *testing.T, out *verifOut) {
 	for round := 0; round < 20; round++ {
 		s := NewMemoryEventStore(nil)
 		s.SetMaxBytes(64)
 		var wg sync.WaitGroup
+		var mu sync.Mutex
+		bad := ""
 		for gi := 0; gi < 8; gi++ {
 			wg.Add(1)
 			go func(gi int) {
 				defer wg.Done()
 				rng := verifRng(int64(1_000_000 + round*100 + gi))
-				g := &esGen{rng: rng, limit: 64, count: map[string]int{}}
+				g := &esGen{rng: rng, limit: 64, count: map[string]int{}, noDeadline: true}
+				sess := fmt.Sprintf("p%d", gi)
+				var log [][]byte
+				ctx := context.Background()
+				priv := func() string {
+					if rng.Intn(5) < 3 {
+						d := []byte{byte(gi), byte(len(log)), byte(len(log) >> 8)}[:1+rng.Intn(3)]
+						s.Append(ctx, sess, "a", d)
+						log = append(log, d)
+						return ""
+					}
+					idx := rng.Intn(len(log)+2) - 1
+					want := [][]byte{}
+					if idx+1 < len(log) {
+						want = append(want, log[idx+1:]...)
+					}
+					known := len(log) > 0
+					var got [][]byte
+					for d, err := range s.After(ctx, sess, "a", idx) {
+						if err != nil {
+							if errors.Is(err, ErrEventsPurged) && len(got) == 0 && len(want) > 0 {
+								return ""
+							}
+							if !errors.Is(err, ErrEventsPurged) && !known && len(got) == 0 {
+								return ""
+							}
+							return fmt.Sprintf("After(%s,a,%d) yielded %v after %d items; %d payloads lie after the index", sess, idx, err, len(got), len(want))
+						}
+						got = append(got, d)
+						if len(got) == 1 && rng.Intn(2) == 0 { // from inside the iteration
+							d2 := []byte{byte(gi), byte(len(log)), 0xff}
+							s.Append(ctx, sess, "a", d2)
+							log = append(log, d2)
+						}
+					}
+					if !known {
+						return fmt.Sprintf("After(%s,a,%d) on a stream that was never created ended without an error", sess, idx)
+					}
+					if len(got) != len(want) {
+						return fmt.Sprintf("After(%s,a,%d) delivered %d payloads and ended without an error; %d lie after the index", sess, idx, len(got), len(want))
+					}
+					for i := range got {
+						if string(got[i]) != string(want[i]) {
+							return fmt.Sprintf("After(%s,a,%d) item %d = x%x, appended x%x", sess, idx, i, got[i], want[i])
+						}
+					}
+					return ""
+				}
 				for i := 0; i < 300; i++ {
+					if i%3 == 2 {
+						if msg := priv(); msg != "" {
+							mu.Lock()
+							if bad == "" {
+								bad = msg
+							}
+							mu.Unlock()
+						}
+						continue
+					}
 					esApply(s, strings.Fields(g.next()))
 				}
 			}(gi)
@@ -267,6 +676,8 @@ func esConcurrent(t *testing.T, out *verifOut) {
 		obs := "consistent"
 		if n != r {
 			obs = fmt.Sprintf("inconsistent nBytes=%d retained=%d", n, r)
+		} else if bad != "" {
+			obs = "inconsistent private-stream: " + bad
 		}
 		out.line(fmt.Sprintf("conc%d", round), "concurrent-accounting", obs, "concurrent")
 	}
